@@ -25,11 +25,14 @@ const POOL: &[&str] = &[
     "/adv[0-9]/", "/advi?ce/", "/ADV/$match-case", "||adv.net^", "||adv.net/adv",
     "adv$domain=x.com", "advert$domain=x.com", "advice$domain=~x.com",
     "adv$redirect=a", "advert$redirect-rule=b", "||x.com^$csp=d1", "||x.com^$csp=d2", "*$removeparam=q", "adv$removeparam=q",
+    // token-less rules (every token is a single character): all land in the wildcard bucket, so
+    // rules with equal masks fuse; the texts contain one another away from the anchor
+    "/a|", "/a.b|", ".b|", "/a", "/a.b", "@@/a|", "@@/a.b|", "/a*b|", "/a*b.c|",
 ];
 
 fn requests() -> Vec<Req> {
     let mut out = vec![];
-    let paths = ["/", "/adv", "/advert", "/advice", "/adv/x", "/advx", "/adv1", "/ADV", "/xadv", "/adv?q=1", "/advert?q=1&r=2", "/advice/", "/adv.js", "/x/advert/y", "/advertx", "/ad"];
+    let paths = ["/", "/adv", "/advert", "/advice", "/adv/x", "/advx", "/adv1", "/ADV", "/xadv", "/adv?q=1", "/advert?q=1&r=2", "/advice/", "/adv.js", "/x/advert/y", "/advertx", "/ad", "/a", "/a.b", "/a.b/", "/xa", "/a1b.c", "/a1b"];
     for host in ["x.com", "adv.net", "sub.adv.net"] {
         for p in paths {
             for (src, ty) in [("https://x.com/", "script"), ("https://y.com/", "script"), ("https://x.com/", "image"), ("https://y.com/", "subdocument"), ("", "document")] {
